@@ -198,6 +198,12 @@ func c06Check(c *fw.Ctx, s string, class string, mustReject string) {
 	}
 	if d := snap(t).diff(snap(t2)); d != "" {
 		c.Fail("not-canonical", "parse(encode(g)) differs from g: %s", d)
+		return
+	}
+	if c.R.Chance(1, 4) {
+		// both parse results are the caller's now
+		callerScribbles(c, t)
+		callerScribbles(c, t2)
 	}
 }
 
